@@ -128,7 +128,23 @@ def stored_apps(proj, db):
 def run_case(desc):
     rng = seqcase.rng_for('C15', desc['seed'], desc['i'])
     apps, spec = gen_project(rng)
-    mode = rng.choice(['no_purge', 'purge_cmd', 'purge_api', 'delete_model'])
+    mode = rng.choice(['no_purge', 'purge_cmd', 'purge_api', 'delete_model',
+                       'delete_model_stale_ref'])
+    stale = None
+    if mode == 'delete_model_stale_ref':
+        # a model that only models of other apps refer to; those apps are
+        # taken out of INSTALLED_APPS (not purged) in the run that deletes it
+        found = []
+        for a in apps:
+            for m in spec[a]:
+                refs = [r for r in E.referrers(spec, a, m)
+                        if (r[0], r[1]) != (a, m)]
+                sapps = set(r[0] for r in refs)
+                if refs and a not in sapps and removable(spec, apps, sapps):
+                    found.append((a, m, sorted(sapps)))
+        if found:
+            stale = rng.choice(found)
+        mode = 'delete_model'
     items, stats = [], {'projects': 1, 'mode_' + mode: 1}
     proj = projlab.Project()
     case = {'spec': spec, 'mode': mode}
@@ -140,11 +156,15 @@ def run_case(desc):
             cands = [(a, m) for a in apps for m in spec[a]
                      if not [r for r in E.referrers(spec, a, m)
                              if (r[0], r[1]) != (a, m)]]
-            if not cands:
+            if not cands and not stale:
                 mode = 'purge_api'
                 stats['mode_purge_api'] = 1
         if mode == 'delete_model':
-            a, m = rng.choice(cands)
+            if stale:
+                a, m = stale[0], stale[1]
+                stats['stale_referrer_cases'] = 1
+            else:
+                a, m = rng.choice(cands)
             spec1 = S.clone(spec)
             del spec1[a][m]
             for app in apps:
@@ -156,6 +176,9 @@ def run_case(desc):
             removed_sig = {a}
             case['deleted'] = [a, m]
             keep_apps = list(apps)
+            if stale:
+                keep_apps = [x for x in apps if x not in stale[2]]
+                case['stale_apps'] = stale[2]
         else:
             for app in apps:
                 proj.write_app(app, [spec[app]], [], nv=[0])
